@@ -5,7 +5,7 @@
    working chip exactly once. *)
 From Coq Require Import ZArith List Bool Lia Permutation.
 Require Import Rig.Model.Base Rig.Model.Place Rig.Spec.Place Rig.Proofs.Place Rig.Proofs.PlaceCore
-        Rig.Proofs.PlaceMerge.
+        Rig.Proofs.PlaceMerge Rig.Proofs.PlaceSeq.
 Import ListNotations.
 Open Scope Z_scope.
 
@@ -949,4 +949,273 @@ Proof.
     + vm_compute. repeat constructor; cbn; intuition discriminate.
     + intros c Hl. apply exc_live in Hl. destruct Hl; subst c; cbn; tauto.
   - vm_compute. reflexivity.
+Qed.
+
+(* ---------------------------------------------------------------------------------------------- *)
+(* The random placer succeeds under the premise, for every sufficiently long stream of choices      *)
+(* ---------------------------------------------------------------------------------------------- *)
+Lemma remove_chip_length : forall c l, In c l -> (length (remove_chip c l) + 1 = length l)%nat.
+Proof.
+  intros c l. induction l as [|h t IH]; intros H; [destruct H|]. cbn [remove_chip].
+  destruct (chip_eqb h c) eqn:E; cbn [length]; [lia|].
+  destruct H as [H | H]; [subst; rewrite chip_eqb_refl in E; discriminate|]. specialize (IH H). lia.
+Qed.
+
+Lemma remove_chip_other : forall c l x, In x l -> x <> c -> In x (remove_chip c l).
+Proof.
+  intros c l x. induction l as [|h t IH]; intros H Hne; [destruct H|]. cbn [remove_chip].
+  destruct (chip_eqb h c) eqn:E.
+  - apply chip_eqb_eq in E. subst h. destruct H as [H | H]; [congruence | exact H].
+  - destruct H as [H | H]; [left; exact H | right; apply IH; assumption].
+Qed.
+
+Lemma rand_vertex_ok : forall m d fuel locs oracle,
+  (length locs < fuel)%nat -> (length locs <= length oracle)%nat ->
+  (forall c, In c locs -> live m c = true) ->
+  (exists c, In c locs /\ overallocated (subtract_resources (chip_res m c) d) = false) ->
+  exists c r' locs' oracle',
+    rand_vertex fuel m d locs oracle = Ok (c, r', locs', oracle')
+    /\ In c locs' /\ live m c = true /\ r' = subtract_resources (chip_res m c) d /\ overallocated r' = false
+    /\ (forall x, In x locs' -> In x locs)
+    /\ (forall x, In x locs -> ~ In x locs' -> overallocated (subtract_resources (chip_res m x) d) = true)
+    /\ (length oracle' + length locs + 1 = length oracle + length locs')%nat.
+Proof.
+  intros m d fuel. induction fuel as [|fuel IH]; intros locs oracle Hf Ho Hlive [c0 [Hc0 Hfit0]]; [lia|].
+  cbn [rand_vertex]. destruct locs as [|l0 lt] eqn:El; [destruct Hc0|]. rewrite <- El in *.
+  assert (Hlen : (0 < length locs)%nat) by (subst locs; cbn [length]; lia).
+  destruct oracle as [|n oracle1]; [cbn [length] in Ho; lia|].
+  set (c := nth (Nat.modulo n (length locs)) locs l0).
+  assert (Hc : In c locs) by (apply nth_In; apply Nat.mod_upper_bound; lia).
+  unfold try_chip, mget. rewrite (Hlive c Hc). cbn [bind].
+  destruct (overallocated (subtract_resources (chip_res m c) d)) eqn:Eo.
+  - assert (Hne : c0 <> c) by (intros E; subst; congruence).
+    pose proof (remove_chip_length c locs Hc) as Hrl.
+    destruct (IH (remove_chip c locs) oracle1) as [c' [r' [locs' [oracle' [G1 [G2 [G3 [G4 [G5 [G6 [G7 G8]]]]]]]]]]].
+    + lia.
+    + cbn [length] in Ho. lia.
+    + intros x Hx. apply Hlive. eapply remove_chip_subset. exact Hx.
+    + exists c0. split; [apply remove_chip_other; assumption | exact Hfit0].
+    + exists c', r', locs', oracle'. split; [exact G1|]. split; [exact G2|]. split; [exact G3|]. split; [exact G4|].
+      split; [exact G5|]. split; [intros x Hx; eapply remove_chip_subset; apply G6; exact Hx|]. split.
+      * intros x Hx Hn. destruct (chip_eq_dec x c) as [E | E]; [subst; exact Eo|].
+        apply G7; [apply remove_chip_other; assumption | exact Hn].
+      * cbn [length]. lia.
+  - exists c, (subtract_resources (chip_res m c) d), locs, oracle1.
+    split; [reflexivity|]. split; [exact Hc|]. split; [apply Hlive; exact Hc|]. split; [reflexivity|]. split; [exact Eo|].
+    split; [intros x Hx; exact Hx|]. split; [intros x Hx Hn; contradiction|]. cbn [length]. lia.
+Qed.
+
+Lemma filter_len_le : forall {A} (f : A -> bool) l, (length (filter f l) <= length l)%nat.
+Proof.
+  intros A f l. induction l as [|x t IH]; cbn [filter length]; [lia|]. destruct (f x); cbn [length]; lia.
+Qed.
+
+Lemma rand_loop_complete : forall vr m0 cs r0,
+  wf_problem vr m0 cs -> unit_premise vr m0 cs r0 ->
+  forall vs m pl locs oracle,
+    LoopInv vr m0 r0 m pl -> NoDup vs ->
+    (forall v, In v vs -> In v (map fst vr) /\ pl_mem v pl = false) ->
+    locs <> [] -> (forall c, In c locs -> live m0 c = true) ->
+    (forall c, live m0 c = true -> ~ In c locs -> rget r0 (chip_res m c) <= 0) ->
+    (length vs + length locs <= length oracle)%nat ->
+    exists pl', rand_loop vr vs m pl locs oracle = Ok pl'.
+Proof.
+  intros vr m0 cs r0 W U vs. induction vs as [|v vs IH]; intros m pl locs oracle Hinv Hnd Hvs Hne Hlocs Hfull Hlen.
+  - exists pl. reflexivity.
+  - cbn [rand_loop]. inversion Hnd as [|? ? Hv_ni Hnd']. subst.
+    destruct (Hvs v (or_introl eq_refl)) as [Hvk Hnew].
+    destruct (zassoc_key_Some v vr Hvk) as [d Hd]. rewrite Hd.
+    assert (Hdin : In (v, d) vr) by (apply zassoc_In; exact Hd).
+    assert (Hlm : forall c, live m c = live m0 c) by (intros c; apply live_frame; exact (li_frame _ _ _ _ _ Hinv)).
+    (* when does a chip have room for v *)
+    assert (Hroom : forall c, live m0 c = true -> rget r0 d <= rget r0 (chip_res m c) ->
+                              overallocated (subtract_resources (chip_res m c) d) = false).
+    { intros c Hc Hle. apply overallocated_false_intro. intros r q' Hin. apply subtract_entries in Hin.
+      destruct Hin as [q [Hq Eq]]. pose proof (li_nn _ _ _ _ _ Hinv c r q Hc Hq) as Hqn.
+      destruct (Z.eq_dec r r0) as [E | E].
+      - subst r. assert (Hqq : rget r0 (chip_res m c) = q).
+        { unfold rget. rewrite (zassoc_NoDup_In r0 q (chip_res m c)); [reflexivity | | exact Hq].
+          exact (eq_ind_r (fun l => NoDup l) (chip_res_nodup vr m0 cs r0 c U) (li_keys _ _ _ _ _ Hinv c Hc)). }
+        lia.
+      - rewrite (rget_other_zero vr m0 cs r0 v d r U Hdin E) in Eq. lia. }
+    assert (Hnn0 : forall c, live m0 c = true -> 0 <= rget r0 (chip_res m c)).
+    { intros c Hc. apply rget_nonneg_of_entries. intros r q Hq. apply (li_nn _ _ _ _ _ Hinv c r q Hc Hq). }
+    assert (Hex : exists c, In c locs /\ overallocated (subtract_resources (chip_res m c) d) = false).
+    { destruct (rget_unit vr m0 cs r0 v d U Hdin) as [Hz | Ho].
+      - destruct locs as [|c t]; [congruence|]. exists c. split; [left; reflexivity|].
+        apply Hroom; [apply Hlocs; left; reflexivity|]. rewrite Hz. apply Hnn0. apply Hlocs. left. reflexivity.
+      - assert (Hpos : 0 < tfree r0 (raster m0) m).
+        { pose proof (li_budget _ _ _ _ _ Hinv) as Hb.
+          pose proof (unplaced_set r0 vr pl v d (0, 0) (wf_vr_nodup _ _ _ W) Hd Hnew) as Hu.
+          pose proof (unplaced_nonneg r0 vr (pl_set v (0, 0) pl) (wf_demand_nonneg _ _ _ W)). lia. }
+        apply sumf_exists_pos in Hpos. destruct Hpos as [c [Hc Hgc]]. apply raster_In in Hc.
+        exists c. split.
+        + destruct (in_dec chip_eq_dec c locs) as [Hi | Hn]; [exact Hi|]. specialize (Hfull c Hc Hn). lia.
+        + apply Hroom; [exact Hc | lia]. }
+    destruct (rand_vertex_ok m d (S (length locs)) locs oracle) as [c [r' [locs' [oracle' [G1 [G2 [G3 [G4 [G5 [G6 [G7 G8]]]]]]]]]]].
+    + lia.
+    + cbn [length] in Hlen. lia.
+    + intros c Hc. rewrite Hlm. apply Hlocs. exact Hc.
+    + exact Hex.
+    + rewrite G1. cbn [bind]. destruct (mset_live m c r' G3) as [m1 Hs]. rewrite Hs. subst r'.
+      rewrite Hlm in G3.
+      pose proof (mset_spec _ _ _ _ Hs) as [_ [_ [_ [_ Hcr]]]].
+      apply (IH m1 (pl_set v c pl) locs' oracle').
+      * apply (LoopInv_place vr m0 cs r0 m pl v d c m1 W Hinv Hd Hnew G3 G5 Hs).
+      * exact Hnd'.
+      * intros u Hu. destruct (Hvs u (or_intror Hu)) as [H1 H2]. split; [exact H1|].
+        rewrite pl_mem_set. destruct (u =? v) eqn:E; [|exact H2]. apply Z.eqb_eq in E. subst u. contradiction.
+      * intros E. subst locs'. destruct G2.
+      * intros x Hx. apply Hlocs. apply G6. exact Hx.
+      * intros x Hx Hn. rewrite Hcr. destruct (chip_eqb x c) eqn:E; [apply chip_eqb_eq in E; subst x; contradiction|].
+        destruct (in_dec chip_eq_dec x locs) as [Hi | Hni]; [|apply Hfull; assumption].
+        (* x was rejected just now: it has no room for a vertex that needs one unit *)
+        specialize (G7 x Hi Hn).
+        destruct (Z_le_gt_dec (rget r0 d) (rget r0 (chip_res m x))) as [Hle | Hgt].
+        -- rewrite (Hroom x Hx Hle) in G7. discriminate.
+        -- destruct (rget_unit vr m0 cs r0 v d U Hdin) as [Hz | Ho]; [|lia]. specialize (Hnn0 x Hx). lia.
+      * cbn [length] in Hlen. lia.
+Qed.
+
+Theorem rand_place_complete : forall vr m cs r0 oracle,
+  wf_problem vr m cs -> unit_premise vr m cs r0 ->
+  (length vr + length (raster m) <= length oracle)%nat ->
+  exists pl, rand_place vr m cs oracle = Ok pl.
+Proof.
+  intros vr m cs r0 oracle W U Hlen. unfold rand_place.
+  unfold apply_same_chip. rewrite (apply_sc_none cs [] vr [] (up_no_groups _ _ _ _ U)). cbn [app bind].
+  destruct (handle_cs_complete vr m cs r0 W U cs [] m [] eq_refl (InvEq_init vr m (wf_exc_nodup _ _ _ W)))
+    as [m1 [pl0 [Hh [Hinv Hfrom]]]].
+  { intros v l Hz. discriminate. }
+  rewrite Hh. cbn [bind].
+  pose proof (LoopInv_after_constraints vr m cs r0 m1 pl0 W U Hinv Hfrom) as Hloop.
+  rewrite (raster_frame m m1 (ie_frame _ _ _ _ _ Hinv)).
+  set (movable := filter (fun v => negb (pl_mem v pl0)) (map fst vr)).
+  destruct (length vr =? 0)%nat eqn:Elen.
+  - apply Nat.eqb_eq in Elen. destruct vr; [|discriminate]. cbn. exists pl0. reflexivity.
+  - assert (Hvrne : vr <> []) by (intros E; subst vr; cbn in Elen; discriminate).
+    destruct (rand_loop_complete vr m cs r0 W U movable m1 pl0 (raster m) oracle Hloop) as [pl1 Hpl1].
+    + unfold movable. apply NoDup_filter. exact (wf_vr_nodup _ _ _ W).
+    + intros v Hv. unfold movable in Hv. apply filter_In in Hv. destruct Hv as [H1 H2].
+      split; [exact H1 | apply negb_true_iff; exact H2].
+    + destruct (up_some_chip _ _ _ _ U Hvrne) as [c Hc]. apply raster_In in Hc. intros E. rewrite E in Hc. destruct Hc.
+    + intros c Hc. apply raster_In. exact Hc.
+    + intros c Hc Hn. exfalso. apply Hn. apply raster_In. exact Hc.
+    + assert (length movable <= length (map fst vr))%nat by (unfold movable; apply filter_len_le).
+      rewrite map_length in H. lia.
+    + rewrite Hpl1. cbn [bind rev finalise]. exists pl1. reflexivity.
+Qed.
+
+(* ---------------------------------------------------------------------------------------------- *)
+(* Termination of the random placer: a rejected chip leaves the candidate set, so |vertices| +      *)
+(* |chips| random choices always suffice                                                            *)
+(* ---------------------------------------------------------------------------------------------- *)
+Lemma rand_vertex_nofuel : forall m d fuel locs oracle,
+  (length locs < fuel)%nat -> (length locs <= length oracle)%nat ->
+  match rand_vertex fuel m d locs oracle with
+  | OutOfFuel => False
+  | Ok (c, r', locs', oracle') => (length oracle' + length locs + 1 = length oracle + length locs')%nat
+  | _ => True
+  end.
+Proof.
+  intros m d fuel. induction fuel as [|fuel IH]; intros locs oracle Hf Ho; [lia|].
+  cbn [rand_vertex]. destruct locs as [|l0 lt] eqn:El; [exact I|]. rewrite <- El in *.
+  assert (Hlen : (0 < length locs)%nat) by (subst locs; cbn [length]; lia).
+  destruct oracle as [|n oracle1]; [cbn [length] in Ho; lia|].
+  set (c := nth (Nat.modulo n (length locs)) locs l0).
+  assert (Hc : In c locs) by (apply nth_In; apply Nat.mod_upper_bound; lia).
+  destruct (try_chip m d c) as [o| | |] eqn:Et; cbn [bind]; try exact I.
+  - destruct o as [r'|].
+    + cbn [length]. lia.
+    + pose proof (remove_chip_length c locs Hc) as Hrl.
+      specialize (IH (remove_chip c locs) oracle1). cbn [length] in Ho.
+      destruct (rand_vertex fuel m d (remove_chip c locs) oracle1) as [[[[c' r'] locs'] oracle']| | |];
+        try exact I; try (apply IH; lia).
+      cbn [length]. assert (Hx := IH ltac:(lia) ltac:(lia)). cbn beta iota in Hx. lia.
+  - exfalso. apply (try_chip_fuel m d c Et).
+Qed.
+
+Lemma rand_loop_nofuel : forall vr vs m pl locs oracle,
+  (length vs + length locs <= length oracle)%nat -> rand_loop vr vs m pl locs oracle <> OutOfFuel.
+Proof.
+  intros vr vs. induction vs as [|v vs IH]; intros m pl locs oracle Hlen; cbn [rand_loop]; [discriminate|].
+  destruct (zassoc v vr) as [d|]; [|discriminate]. cbn [length] in Hlen.
+  pose proof (rand_vertex_nofuel m d (S (length locs)) locs oracle ltac:(lia) ltac:(lia)) as Hv.
+  destruct (rand_vertex (S (length locs)) m d locs oracle) as [[[[c r'] locs'] oracle']| | |]; cbn [bind];
+    try discriminate; [|destruct Hv].
+  destruct (mset m c r'); [|discriminate]. apply IH. lia.
+Qed.
+
+Theorem rand_place_terminates : forall vr m cs oracle,
+  (length vr + length (raster m) <= length oracle)%nat -> rand_place vr m cs oracle <> OutOfFuel.
+Proof.
+  intros vr m cs oracle Hlen. unfold rand_place.
+  destruct (apply_same_chip vr cs) as [[[vr1 cs1] subs]| | |] eqn:Ea; cbn [bind]; try discriminate.
+  2: { exfalso. apply (apply_sc_fuel _ _ _ _ _ Ea). }
+  destruct (handle_cs vr1 cs1 m []) as [[m1 pl0]| | |] eqn:Eh; cbn [bind]; try discriminate.
+  2: { exfalso. apply (handle_cs_fuel _ _ _ _ Eh). }
+  apply bind_fuel; [|intros pl1 _; apply finalise_fuel].
+  apply rand_loop_nofuel.
+  (* merging never increases the number of vertices, the frame of the machine is unchanged *)
+  assert (Hk : (length (map fst vr1) <= length vr)%nat).
+  { clear -Ea. unfold apply_same_chip in Ea. revert Ea. generalize (fun v : vertex => v) as f.
+    generalize (@nil pconstr) as done. generalize (@nil substitution) as subs0. revert vr.
+    induction cs as [|k rest IH]; intros vr subs0 done f H; cbn [apply_sc] in H.
+    - inversion H. subst. rewrite map_length. lia.
+    - destruct (subst_c f k) as [| vs | |]; try (apply (IH _ _ _ _ H)).
+      destruct (length vs <=? 1)%nat eqn:El; [apply (IH _ _ _ _ H)|].
+      destruct (pop_all (dedup vs) vr []) as [[total vr']|] eqn:Ep; [|discriminate].
+      specialize (IH _ _ _ _ H). rewrite app_length in IH. cbn [length] in IH.
+      assert (Hp : (length vr' + length (dedup vs) = length vr)%nat).
+      { clear -Ep. revert vr total vr' Ep. generalize (@nil (res * Z)) as tot.
+        induction (dedup vs) as [|x S IHS]; intros tot vr total vr' Ep; cbn [pop_all] in Ep.
+        - inversion Ep. subst. cbn [length]. lia.
+        - destruct (vr_pop x vr) as [[d vr1]|] eqn:Ev; [|discriminate].
+          specialize (IHS _ _ _ _ Ep). cbn [length].
+          assert (length vr1 + 1 = length vr)%nat.
+          { clear -Ev. revert d vr1 Ev. induction vr as [|[u du] t IHt]; intros d vr1 Ev; cbn [vr_pop] in Ev; [discriminate|].
+            destruct (x =? u); [inversion Ev; subst; cbn [length]; lia|].
+            destruct (vr_pop x t) as [[d1 t1]|]; [|discriminate]. inversion Ev. subst. cbn [length].
+            specialize (IHt _ _ eq_refl). lia. }
+          lia. }
+      assert (Hd : (1 <= length (dedup vs))%nat).
+      { destruct vs as [|a t]; [cbn in El; discriminate|].
+        assert (In a (dedup (a :: t))) by (apply dedup_In; left; reflexivity).
+        destruct (dedup (a :: t)); [destruct H0 | cbn [length]; lia]. }
+      lia. }
+  assert (Hfr : raster m1 = raster m).
+  { destruct (handle_cs vr1 cs1 m []) as [[m1' pl0']| | |] eqn:Eh'; inversion Eh. subst.
+    apply raster_frame. clear -Eh'. revert Eh'. generalize (@nil (vertex * chip)) as pl. revert m.
+    assert (Hap : forall m r size loc m', apply_reserve m r size loc = Ok m' -> same_frame m m').
+    { intros m r size loc m' H. unfold apply_reserve in H. destruct loc as [c|].
+      - destruct (negb (live m c)); [discriminate|].
+        destruct (after_reservation (chip_res m c) r size) as [d'|]; [|discriminate].
+        destruct (mset m c d') as [m2|] eqn:Es; [|discriminate].
+        destruct (overallocated (chip_res m2 c)); [discriminate|]. inversion H. subst.
+        apply (proj1 (mset_spec _ _ _ _ Es)).
+      - destruct (after_reservation (pm_res m) r size) as [d'|]; [|discriminate].
+        destruct (overallocated d'); [discriminate|].
+        assert (Hre : forall todo m0 m1, reserve_exceptions m0 r size todo = Ok m1 -> same_frame m0 m1).
+        { induction todo as [|[l x] todo IHt]; intros m0 m2 H0; cbn [reserve_exceptions] in H0.
+          - inversion H0. apply same_frame_refl.
+          - destruct (cassoc l (pm_exc m0)) as [d|]; [|discriminate].
+            destruct (after_reservation d r size) as [d1|]; [|discriminate].
+            match type of H0 with (if ?b then _ else _) = _ => destruct b end; [discriminate|].
+            eapply same_frame_trans; [apply with_exc_frame | apply (IHt _ _ H0)]. }
+        eapply same_frame_trans; [apply with_res_frame | apply (Hre _ _ _ H)]. }
+    induction cs1 as [|k cs1 IH]; intros m pl H; cbn [handle_cs] in H.
+    - inversion H. apply same_frame_refl.
+    - destruct k as [v loc | vs | r s e loc |]; try apply (IH _ _ H).
+      + destruct (negb (live m loc)); [discriminate|].
+        destruct (match zassoc v pl with Some l => chip_eqb l loc | None => false end); [apply (IH _ _ H)|].
+        destruct (zassoc v vr1) as [d|]; [|discriminate].
+        destruct (mget m loc) as [cr|]; [|discriminate].
+        destruct (mset m loc (subtract_resources cr d)) as [m2|] eqn:Es; [|discriminate].
+        destruct (overallocated (chip_res m2 loc)); [discriminate|].
+        eapply same_frame_trans; [apply (proj1 (mset_spec _ _ _ _ Es)) | apply (IH _ _ H)].
+      + destruct (apply_reserve m r (e - s) loc) as [m2| | |] eqn:Er; cbn [bind] in H; try discriminate.
+        eapply same_frame_trans; [apply (Hap _ _ _ _ _ Er) | apply (IH _ _ H)]. }
+  rewrite Hfr.
+  assert (length (filter (fun v => negb (pl_mem v pl0)) (map fst vr1)) <= length (map fst vr1))%nat by apply filter_len_le.
+  lia.
 Qed.
